@@ -343,17 +343,35 @@ func (in *Interp) fire(t Trans) {
 	case TSendBuf:
 		v := sendVal(t.g, t.ci)
 		t.ch.Buf = append(t.ch.Buf, v)
+		if k := t.ch.Sends - t.ch.Cap; k >= 0 && k < len(t.ch.RecvVC) {
+			t.g.vc = joinVC(t.g.vc, t.ch.RecvVC[k])
+		}
+		t.ch.Sends++
+		t.ch.BufVC = append(t.ch.BufVC, append([]int(nil), t.g.vc...))
+		in.tick(t.g)
 		in.complete(t.g, t.ci, nil, false, true)
 	case TSendClosed:
 		panic(goPanic("send on closed channel"))
 	case TRecvBuf:
 		v := t.ch.Buf[0]
 		t.ch.Buf = append([]Value(nil), t.ch.Buf[1:]...)
+		if len(t.ch.BufVC) > 0 {
+			t.g.vc = joinVC(t.g.vc, t.ch.BufVC[0])
+			t.ch.BufVC = append([][]int(nil), t.ch.BufVC[1:]...)
+		}
+		t.ch.RecvVC = append(t.ch.RecvVC, append([]int(nil), t.g.vc...))
+		in.tick(t.g)
 		in.complete(t.g, t.ci, v, true, false)
 	case TRecvClosed:
+		t.g.vc = joinVC(t.g.vc, t.ch.closeVC)
 		in.complete(t.g, t.ci, nil, false, false)
 	case TRendezvous:
 		v := sendVal(t.g, t.ci)
+		j := joinVC(append([]int(nil), t.g.vc...), t.g2.vc)
+		t.g.vc = append([]int(nil), j...)
+		t.g2.vc = append([]int(nil), j...)
+		in.tick(t.g)
+		in.tick(t.g2)
 		in.complete(t.g, t.ci, nil, false, true)
 		in.complete(t.g2, t.ci2, v, true, false)
 	case TDefault:
@@ -370,12 +388,23 @@ func (in *Interp) fire(t Trans) {
 			panic(goPanic("close of closed channel"))
 		}
 		p.ch.Closed = true
+		p.ch.closeVC = append([]int(nil), t.g.vc...)
+		in.tick(t.g)
 		in.complete(t.g, -1, nil, false, false)
 	case TCancel:
 		p := t.g.pend
+		in.cancelVC = append([]int(nil), t.g.vc...)
 		in.cancelCtx(p.ctx, in.canceledErr())
+		in.tick(t.g)
 		in.complete(t.g, -1, nil, false, false)
-	case TYield, TQuiesce:
+	case TYield:
+		in.complete(t.g, -1, nil, false, false)
+	case TQuiesce:
+		for _, o := range in.st.gs {
+			if o != t.g {
+				t.g.vc = joinVC(t.g.vc, o.vc)
+			}
+		}
 		in.complete(t.g, -1, nil, false, false)
 	case TFire:
 		in.fireTimer(t.timer)
@@ -428,12 +457,16 @@ func (in *Interp) runPath(entry *ssa.Function) (out PathOutcome) {
 				out.Kind, out.Msg = "inconclusive", s.msg
 			case pathEndSig:
 				out.Kind, out.Msg = "end", s.reason
+			case raceSig:
+				out.Kind, out.Msg = "race", s.msg
+				out.Stacks = in.stackOf(in.cur)
 			default:
 				panic(r)
 			}
 		}
 	}()
 	main := in.newG(nil, &FuncV{Fn: entry}, nil, "entry")
+	var sleep []Trans
 	for {
 		// local phase: run everything up to its next visible operation
 		for progress := true; progress; {
@@ -455,11 +488,66 @@ func (in *Interp) runPath(entry *ssa.Function) (out PathOutcome) {
 			return PathOutcome{Kind: "deadlock", Msg: "no transition enabled and harness not finished", Stacks: in.allStacks()}
 		}
 		ts = in.reduce(ts)
+		if !in.cfg.NoSleep && len(sleep) > 0 {
+			var cands []Trans
+			for _, x := range ts {
+				asleep := false
+				for _, z := range sleep {
+					if sameTrans(x, z) {
+						asleep = true
+						break
+					}
+				}
+				if !asleep {
+					cands = append(cands, x)
+				}
+			}
+			if len(cands) == 0 {
+				in.stats.Pruned++
+				return PathOutcome{Kind: "end", Msg: "sleep-set blocked"}
+			}
+			ts = cands
+		}
 		pick := 0
 		if len(ts) > 1 {
 			pick = in.choose(len(ts), "sched", "")
 		}
-		in.fire(ts[pick])
+		t := ts[pick]
+		if !in.cfg.NoSleep {
+			var ns []Trans
+			for _, z := range sleep {
+				if indep(z, t) {
+					ns = append(ns, z)
+				}
+			}
+			for _, z := range ts[:pick] {
+				if indep(z, t) {
+					ns = append(ns, z)
+				}
+			}
+			sleep = ns
+		}
+		if in.cfg.Preempt >= 0 {
+			involves := func(x Trans) bool {
+				return (x.g != nil && in.lastActive[x.g]) || (x.g2 != nil && in.lastActive[x.g2])
+			}
+			if len(in.lastActive) > 0 && !involves(t) {
+				for _, x := range ts {
+					if involves(x) {
+						in.preempts++
+						break
+					}
+				}
+			}
+			in.lastActive = map[*G]bool{}
+			if t.g != nil {
+				in.lastActive[t.g] = true
+			}
+			if t.g2 != nil {
+				in.lastActive[t.g2] = true
+			}
+		}
+		in.fire(t)
 	}
 }
 
@@ -580,4 +668,55 @@ func (in *Interp) liveLibGoroutines() []string {
 	}
 	sort.Strings(out)
 	return out
+}
+
+func sameTrans(a, b Trans) bool {
+	return a.kind == b.kind && a.g == b.g && a.ci == b.ci && a.g2 == b.g2 && a.ci2 == b.ci2 && a.ch == b.ch && a.timer == b.timer
+}
+
+func transChans(t Trans) []*Chan {
+	if t.kind == TDefault && t.g != nil && t.g.pend != nil {
+		var cs []*Chan
+		for _, c := range t.g.pend.cases {
+			if c.ch != nil {
+				cs = append(cs, c.ch)
+			}
+		}
+		return cs
+	}
+	if t.ch != nil {
+		return []*Chan{t.ch}
+	}
+	return nil
+}
+
+// indep under-approximates independence of two enabled transitions: disjoint
+// goroutines and disjoint channels. Heap accesses need no clause because
+// concurrently enabled conflicting accesses are data races, which the engine
+// detects (vector clocks) and reports instead of assuming their absence.
+func indep(a, b Trans) bool {
+	for _, k := range []TKind{a.kind, b.kind} {
+		if k == TFire || k == TQuiesce || k == TCancel || k == TSendClosed {
+			return false
+		}
+	}
+	gs := func(t Trans) [2]*G { return [2]*G{t.g, t.g2} }
+	for _, x := range gs(a) {
+		if x == nil {
+			continue
+		}
+		for _, y := range gs(b) {
+			if x == y {
+				return false
+			}
+		}
+	}
+	for _, x := range transChans(a) {
+		for _, y := range transChans(b) {
+			if x == y {
+				return false
+			}
+		}
+	}
+	return true
 }
